@@ -124,9 +124,13 @@ func PackString(buffer []byte, maxLen uint, input string) (uint, error) {
 		return 0, fmt.Errorf("unable to encode string: %s", err)
 	}
 
+	if maxLen == 0 {
+		return 0, nil
+	}
+
+	// Leave room for the terminating zero byte.
 	if len(encoded) >= int(maxLen) {
-		encoded = encoded[:maxLen]
-		encoded[maxLen] = 0x00
+		encoded = encoded[:maxLen-1]
 	}
 
 	copy(buffer, encoded)
